@@ -31,6 +31,38 @@ type Script struct {
 	Lazy    bool   `json:"lazy"`
 	Steps   []Step `json:"steps"`
 	TxSeed  int64  `json:"tx_seed"`
+	// Roots is what the execution layer returns as state root, per executed height (cyclic: height modulo the length):
+	// hash (a digest of the previous root and the transactions) | nil | empty | same (the previous root again: nothing
+	// changed) | short (one byte) | long (128 bytes) | zeros. Absent: hash everywhere.
+	Roots []string `json:"exec_roots,omitempty"`
+}
+
+// rootKinds are the state roots an execution layer may return besides a fresh digest: the interface promises no length.
+var rootKinds = []string{"nil", "empty", "same", "short", "long", "zeros"}
+
+// rootFn is the (deterministic) root function of the script's execution layer.
+func (s Script) rootFn() func(uint64, []byte, [][]byte) []byte {
+	if len(s.Roots) == 0 {
+		return nil
+	}
+	return func(h uint64, prev []byte, txs [][]byte) []byte {
+		d := world.RootAfter(prev, txs)
+		switch s.Roots[int(h%uint64(len(s.Roots)))] {
+		case "nil":
+			return nil
+		case "empty":
+			return []byte{}
+		case "same":
+			return append([]byte{}, prev...)
+		case "short":
+			return d[:1]
+		case "long":
+			return bytes.Repeat(d, 4)
+		case "zeros":
+			return make([]byte, 32)
+		}
+		return d
+	}
 }
 
 func (s Script) abstract() string {
@@ -38,6 +70,9 @@ func (s Script) abstract() string {
 	fmt.Fprintf(&sb, "i%d l%v:", s.Initial, s.Lazy)
 	for _, st := range s.Steps {
 		fmt.Fprintf(&sb, "%s/%s/%s,", st.Kind, st.Ts, st.Exec)
+	}
+	if len(s.Roots) > 0 {
+		fmt.Fprintf(&sb, " roots=%s", strings.Join(s.Roots, ","))
 	}
 	return sb.String()
 }
@@ -107,6 +142,20 @@ func gen(rng *rand.Rand, id int, quick bool) Script {
 		}
 		s.Steps = append(s.Steps, st)
 	}
+	// one script in three runs against an execution layer whose roots are not all fresh digests (drawn from a stream of
+	// its own, so that the steps above are the same with and without it)
+	if rr := rand.New(rand.NewSource(s.TxSeed ^ 0x726f6f74)); rr.Intn(3) == 0 {
+		s.Roots = make([]string, 2+rr.Intn(8))
+		for i := range s.Roots {
+			s.Roots[i] = "hash"
+			if rr.Intn(2) == 0 {
+				s.Roots[i] = rootKinds[rr.Intn(len(rootKinds))]
+				if rr.Intn(2) == 0 {
+					s.Roots[i] = []string{"nil", "empty"}[rr.Intn(2)]
+				}
+			}
+		}
+	}
 	return s
 }
 
@@ -157,6 +206,7 @@ func RunScript(r *vk.Run, s Script) {
 	im := world.NewImage()
 	dsp := world.NewMemDS(im)
 	exec := world.NewExecDouble()
+	exec.RootFn = s.rootFn()
 	seq := world.NewSeqDouble()
 	da := world.NewDADouble()
 	keys := world.NewKeys("proposer")
@@ -277,13 +327,20 @@ func RunScript(r *vk.Run, s Script) {
 			// a batch stamped before its predecessor can only be dropped
 			return uint64(rp.Time.UnixNano()) < prevNano
 		},
-		CheckExecLog: true, Execs: exec.Execs(),
+		CheckExecLog: true, Execs: exec.Execs(), RootFn: s.rootFn(),
 	}
 	blocks, probs := monitors.CheckChain(ctx, n.Store, ex, r.Hit)
 	for _, p := range probs {
 		viol = append(viol, p.String())
 	}
-	for _, b := range blocks {
+	for i, b := range blocks {
+		// (what the app-hash clause judged: the header after a block whose execution returned no root at all / the
+		// unchanged root carries exactly that)
+		if i > 0 && len(blocks[i-1].Root) == 0 {
+			r.Hit("app-hash-after-empty-root")
+		} else if i > 1 && len(blocks[i-2].Root) == 0 {
+			r.Hit("app-hash-after-root-following-empty-root")
+		}
 		if fh, ok := firstHash[b.Height]; ok {
 			r.Hit("immutable")
 			if !bytes.Equal(fh, b.HeaderHash) {
@@ -299,7 +356,7 @@ func RunScript(r *vk.Run, s Script) {
 		viol = append(viol, p.String())
 	}
 	// the same validation a full node applies: a shadow full node must accept the chain
-	if msg := Shadow(ctx, n, blocks, r); msg != "" {
+	if msg := Shadow(ctx, n, blocks, r, s.rootFn()); msg != "" {
 		viol = append(viol, msg)
 	}
 	if len(viol) > 0 {
@@ -331,7 +388,7 @@ func sampleOf(s Script, committed int) any {
 	for _, st := range s.Steps {
 		steps = append(steps, fmt.Sprintf("%s/%s/%s", st.Kind, st.Ts, st.Exec))
 	}
-	return map[string]any{"initial_height": s.Initial, "lazy": s.Lazy, "steps": steps, "blocks_committed": committed}
+	return map[string]any{"initial_height": s.Initial, "lazy": s.Lazy, "steps": steps, "blocks_committed": committed, "exec_roots": s.Roots}
 }
 
 func tail(s []string, n int) []string {
@@ -343,12 +400,13 @@ func tail(s []string, n int) []string {
 
 // Shadow feeds the committed chain, in order, to a real non-aggregator Manager and requires it
 // to apply every block ("passes the same validation a full node applies").
-func Shadow(ctx context.Context, agg *world.Node, blocks []monitors.Block, r *vk.Run) string {
+func Shadow(ctx context.Context, agg *world.Node, blocks []monitors.Block, r *vk.Run, rootFn func(uint64, []byte, [][]byte) []byte) string {
 	if len(blocks) == 0 {
 		return ""
 	}
 	im := world.NewImage()
 	fexec := world.NewExecDouble()
+	fexec.RootFn = rootFn // the full node runs the same (deterministic) execution layer
 	opts := world.NodeOpts{Aggregator: false, InitialHeight: agg.Opts.InitialHeight, DABlockTime: time.Hour, BlockTime: time.Hour}
 	var fn *world.Node
 	var l *world.Loops
@@ -420,7 +478,7 @@ const Level = "exploration"
 // Run is the check entry point.
 func Run(r *vk.Run) {
 	world.Silence()
-	r.Rule = "seeded scripts of 10-60 production steps on the real aggregator Manager (per step: response kind txs|empty|nilresp|nilbatch|error x timestamp inc|eq|dec x execution ok|err1|err2|cancel|ctx; initial height 1|2|7|1000; lazy flag); non-trivial = >=2 blocks committed and >=1 non-nominal step; distinct by abstract script (kind/ts/exec per step + configuration)"
+	r.Rule = "seeded scripts of 10-60 production steps on the real aggregator Manager (per step: response kind txs|empty|nilresp|nilbatch|error x timestamp inc|eq|dec x execution ok|err1|err2|cancel|ctx; initial height 1|2|7|1000; lazy flag; in one script of three the execution layer's state roots follow a per-height pattern of hash|nil|empty|same-as-before|1 byte|128 bytes|zeros); non-trivial = >=2 blocks committed and >=1 non-nominal step; distinct by abstract script (kind/ts/exec per step + configuration)"
 	r.Assume("datastore is the in-memory MemDS double (atomic Batch.Commit, durable Put)")
 	r.Assume("execution, sequencing and DA layers are doubles obeying the documented contracts")
 	r.Assume("default signature payload / validator hash providers only")
@@ -433,6 +491,8 @@ func Run(r *vk.Run) {
 	r.Require("no-stall", int64(n/2))
 	r.Require("hash-link", 100)
 	r.Require("shadow-full-node", int64(n/2))
+	r.Require("app-hash-after-empty-root", int64(n/20))
+	r.Require("app-hash-after-root-following-empty-root", int64(n/20))
 	var wg sync.WaitGroup
 	ch := make(chan Script)
 	for w := 0; w < 12; w++ {
